@@ -2,6 +2,7 @@
 from .. import common as C, structs as S, valgen as V
 
 LEAN_MODULES = ["ZvtVerif.Properties.C01"]
+NEEDS_RELEASE = True
 TRANSLATED = {"structs"}      # translated tables this property consumes (a translator problem elsewhere does not break its tie)
 ASSUMPTIONS = ["canonical value domain of DESIGN.md §5.1", "Rust values are observed through their Debug output"]
 
@@ -23,8 +24,9 @@ def run(ctx, out):
     ops2, want2 = S.apdu_switch(layout, ctx.rng)
     ops += ops2; want += want2; meta += [("apdu-switch", 0)] * len(ops2)
     impl, model = ctx.pair(ops)
-    from ..flow import history_check
+    from ..flow import history_check, release_check
     history_check(ctx, out, ops, impl, "packet decoder")
+    release_check(ctx, out, ops, impl, "packet codec")
     out.compare("dec", ops, impl, model)
     out.evaluations = len(ops)
     for o, r, w, m in zip(ops, impl, want, meta):
